@@ -574,9 +574,12 @@ class MonitoredFocusList(MonitoredList[_T], typing.Generic[_T]):
             # no focus to keep track of; the built-in list still validates the arguments
             return super().sort(**kwargs)
         value = self[self._focus]
-        rval = super().sort(**kwargs)
-        # the focus follows the object itself, not the first item that compares equal to it
-        self.focus = next(i for i, item in enumerate(self) if item is value)
+        try:
+            rval = super().sort(**kwargs)
+        finally:
+            # the focus follows the object itself, not the first item that compares equal to it - also when a
+            # comparison raised after items had been moved
+            self.focus = next(i for i, item in enumerate(self) if item is value)
         return rval
 
     if hasattr(list, "clear"):
